@@ -4,6 +4,7 @@
 #pragma once
 
 #include <cstring>
+#include <iterator>
 #include <utility>
 
 #include "opentelemetry/context/context_value.h"
@@ -29,8 +30,13 @@ public:
   // hold a shared_ptr to the head of the DataList linked list
   template <class T>
   Context(const T &keys_and_values) noexcept
-      : head_{nostd::shared_ptr<DataList>{new DataList(keys_and_values)}}
-  {}
+  {
+    // An empty iterable gives an empty context, not a node without a key.
+    if (std::begin(keys_and_values) != std::end(keys_and_values))
+    {
+      head_ = nostd::shared_ptr<DataList>{new DataList(keys_and_values)};
+    }
+  }
 
   // Creates a context object from a key and value, this will
   // hold a shared_ptr to the head of the DataList linked list
@@ -44,7 +50,12 @@ public:
   template <class T>
   Context SetValues(T &values) noexcept
   {
-    Context context                  = Context(values);
+    Context context = Context(values);
+    if (context.head_ == nullptr)
+    {
+      // Nothing to add.
+      return *this;
+    }
     nostd::shared_ptr<DataList> last = context.head_;
     while (last->next_ != nullptr)
     {
